@@ -6,6 +6,7 @@ import (
 	"go/token"
 	"go/types"
 	"math"
+	"sort"
 	"strings"
 
 	"golang.org/x/tools/go/ssa"
@@ -389,6 +390,19 @@ func ruleC18R3(r *Run) {
 		}
 		ed.desc = strings.Join(ds, " ∧ ")
 		edges = append(edges, ed)
+	}
+	// guards that are themselves short-circuit combinations (case a && b: in a switch) are split into the
+	// alternative conjunctions they stand for; every alternative becomes an edge of the same kind
+	{
+		var split []edge
+		for _, ed := range edges {
+			for _, clause := range p.expandDNF(ed.conds) {
+				ne := ed
+				ne.conds = clause
+				split = append(split, ne)
+			}
+		}
+		edges = split
 	}
 	kinds := map[string]int{}
 	for _, e := range edges {
@@ -783,4 +797,97 @@ func findBugCounters(p *Program, v *findBugView) (valid, invalid *ssa.Phi) {
 		}
 	}
 	return
+}
+
+// expandDNF rewrites a conjunction of guards into a disjunction of conjunctions in which no guard is a boolean phi.
+func (p *Program) expandDNF(conds []edgeCond) [][]edgeCond {
+	out := [][]edgeCond{{}}
+	for _, c := range conds {
+		alts, ok := p.boolPhiAlternatives(c.cond, c.pol, 0)
+		if !ok {
+			alts = [][]edgeCond{{c}}
+		}
+		var next [][]edgeCond
+		for _, pre := range out {
+			for _, a := range alts {
+				next = append(next, append(append([]edgeCond{}, pre...), a...))
+			}
+		}
+		out = next
+		if len(out) > 64 {
+			return [][]edgeCond{conds}
+		}
+	}
+	return out
+}
+
+// boolPhiAlternatives: cond is a phi of booleans built by short-circuit evaluation (a && b && …, a || b || …). Returns
+// the ways in which it can take the value pol, each as a conjunction of branch decisions. ok=false for anything else.
+func (p *Program) boolPhiAlternatives(cond ssa.Value, pol bool, d int) ([][]edgeCond, bool) {
+	for i := 0; i < 4; i++ {
+		c := p.resolve(cond)
+		if u, ok := c.(*ssa.UnOp); ok && u.Op == token.NOT {
+			cond, pol = u.X, !pol
+			continue
+		}
+		cond = c
+		break
+	}
+	ph, ok := cond.(*ssa.Phi)
+	if !ok || d > 3 {
+		return nil, false
+	}
+	if bt, ok := ph.Type().Underlying().(*types.Basic); !ok || bt.Kind() != types.Bool {
+		return nil, false
+	}
+	// the decision that leads to each edge: the terminating If of the predecessor (constant edges), ordered by dominance
+	type edgeInfo struct {
+		val   ssa.Value
+		isC   bool
+		cv    bool
+		pred  *ssa.BasicBlock
+		iff   *ssa.If
+		taken bool // polarity of iff's condition on the edge into the phi block
+	}
+	var es []edgeInfo
+	for i, e := range ph.Edges {
+		pred := ph.Block().Preds[i]
+		ei := edgeInfo{val: e, pred: pred}
+		ei.cv, ei.isC = constBool(p.resolve(e))
+		if iff, ok := pred.Instrs[len(pred.Instrs)-1].(*ssa.If); ok && pred.Succs[0] != pred.Succs[1] {
+			ei.iff, ei.taken = iff, pred.Succs[0] == ph.Block()
+		}
+		es = append(es, ei)
+	}
+	sort.SliceStable(es, func(i, j int) bool { return es[i].pred.Dominates(es[j].pred) && es[i].pred != es[j].pred })
+	var out [][]edgeCond
+	var prefix []edgeCond // decisions that lead past the earlier edges
+	for k, e := range es {
+		last := k == len(es)-1
+		if !last && (!e.isC || e.iff == nil) {
+			return nil, false
+		}
+		if !last {
+			if e.cv == pol {
+				out = append(out, append(append([]edgeCond{}, prefix...), edgeCond{e.iff.Cond, e.taken}))
+			}
+			prefix = append(prefix, edgeCond{e.iff.Cond, !e.taken})
+			continue
+		}
+		// the last operand
+		if e.isC {
+			if e.cv == pol {
+				out = append(out, append([]edgeCond{}, prefix...))
+			}
+			continue
+		}
+		sub, ok := p.boolPhiAlternatives(e.val, pol, d+1)
+		if !ok {
+			sub = [][]edgeCond{{{e.val, pol}}}
+		}
+		for _, sc := range sub {
+			out = append(out, append(append([]edgeCond{}, prefix...), sc...))
+		}
+	}
+	return out, len(out) > 0
 }
